@@ -192,19 +192,23 @@ Definition invert_node_classes (cfg : invert_cfg) (rho : env) (n : expr) : list 
        end)
   end.
 
-(** * use-generator: the calls [rw_generator] rewrites (none of them sits inside the arguments of another call) *)
+(** * use-generator: the calls [rw_generator] rewrites, found the way [rw_generator] traverses: arguments of calls are
+    entered only when [ug_nested], the comprehension of a rewritten call only when [ug_updated_parts] *)
 Fixpoint gen_sites (cfg : generator_cfg) (rho : env) (e : expr) : list (env * builtin * expr * N * expr * list expr) :=
   let gs := fix gs (es : list expr) := match es with [] => [] | a :: t => gen_sites cfg rho a ++ gs t end in
   match e with
-  | EName _ | EConst _ | EType _ | EMeth _ _ _ => []
+  | EName _ | EConst _ | EType _ => []
+  | EMeth _ _ args => if ug_nested cfg then gs args else []
   | ETuple es | EList es | ESet es => gs es
   | ECall f args =>
-      match args with
-      | EListComp elt x it :: rest =>
-          if gen_func f && (negb (ug_single_arg cfg) || match rest with [] => true | _ => false end)
-          then [(rho, f, elt, x, it, rest)] else []
-      | _ => []
-      end
+      if gen_hit cfg f args then
+        match args with
+        | EListComp elt x it :: rest =>
+            (rho, f, elt, x, it, rest) ::
+            (if ug_updated_parts cfg then gen_sites cfg rho it ++ under_binder rho x it (fun rho' => gen_sites cfg rho' elt) else [])
+        | _ => []
+        end
+      else if ug_nested cfg then gs args else []
   | EBool _ _ l r | EFloorDiv l r => gen_sites cfg rho l ++ gen_sites cfg rho r
   | ENot _ a | EJuxt _ a => gen_sites cfg rho a
   | ECmp _ l rest => gen_sites cfg rho l ++
